@@ -5,6 +5,7 @@ apply_common()
 from vlib.sel import sel, concrete
 import numpy as np
 import formulas
+from formulas.ranges import Ranges
 
 T = __T__
 # ---- workbook level -----------------------------------------------------------
@@ -37,13 +38,20 @@ def _fixed_point(order, i, j):
             continue
         func = formulas.Parser().ast(v)[1].compile()
         args = []
-        for name in func.inputs:
-            if name not in sol:
+        for name, rng in func.inputs.items():
+            if name in sol:
+                args.append(sol[name])
+                continue
+            # a multi-area reference is one argument: the union of the calculated areas
+            areas = getattr(rng, 'ranges', None)
+            if not areas or any(r['name'] not in sol for r in areas):
                 return False
-            args.append(sol[name])
+            arg = Ranges(areas)
+            for r in areas:
+                arg.values.update(sol[r['name']].values)
+            args.append(arg)
         val = func(*args)
         shp = np.shape(sol[k].value)
-        from formulas.ranges import Ranges
         fit = Ranges().push(k, val).value if shp != (1, 1) else val
         if M.norm_value(np.asarray(fit, object).reshape(shp) if np.size(fit) == np.prod(shp) else fit) != got[k]:
             return False
